@@ -82,6 +82,12 @@ CHECKS = {
   text="Part A: {signer directly, contract, nested contract} x 11 state-changing staking / distribution / authorization methods x named account {signer, calling contract, third party, other contract} x grant state {none, signer->caller, third->caller, both} (374 scenarios): after the transaction, funds, stake, unbonding entries, withdraw address and granted authorizations of every account other than the signer and the immediate caller must be unchanged (funds may grow), and staking effects on the signer from a contract need a grant. Part B: every sequence <= 3 (thorough 4) over approve / increaseAllowance / decreaseAllowance / revoke / native grant with validator allow-list or of another message type / spend via a contract to two validators with 4 amounts, failure bubbled or swallowed / jump past expiry: a delegation for the signer happens only under a live grant covering validator and amount, a limited grant is reduced by exactly the amount (deleted at 0), and authorization methods do exact arithmetic.",
   note="Gas price 0. ICS-20 and ERC-20 precompile legs are not included (no channel fixture; no ERC-20 precompile active at this commit).",
   design="DESIGN.md §3 C04"),
+ "C08": dict(
+  technique="explicit-state exploration: exhaustive enumeration of all operation sequences <= depth per schedule fixture through the real DeliverTx on branches, with an independent step-function reference of the locked amount evaluated after every successful transaction",
+  engine="E1",
+  text="3 (thorough 5) lockup/vesting schedule fixtures (vested-but-locked and unlocked-but-unvested windows included) x every sequence <= 3 (thorough 4) over 50 operations: spend attempts on 7 paths (bank send, multi-send, EVM value transfer, transfer forwarded by a contract, fee payment, DAO funding, governance deposit) x {1, spendable, spendable+1, whole balance}; delegation by message / by authz exec / through the staking precompile x {1, max delegatable, max+1}; undelegation; block boundary with unbonding completion; 50% slash; clawback; block-time jumps to every schedule event +-1. After every successful non-delegation transaction balance >= max(original - unlockedVested - trackedDelegated, unvested) computed from the grant parameters; every successful delegation <= balance - unvested; tracked delegation bounded by the reference's own counter.",
+  note="Zero gas prices (explicit fee operation instead). IBC transfer, ERC-20 conversion and liquidation are not in this alphabet.",
+  design="DESIGN.md §3 C08"),
 }
 
 PENDING = {}
